@@ -20,7 +20,7 @@ CONSTANTS Sizes,                 \* <<rows, K, N, batch rank>> explored (both si
 Dtypes == {"float32", "float16", "bfloat16"}
 Acts == {"float", "qint8", "qfloat8_e4m3fn", "qfloat8_e5m2"}
 WQs == {"qint8", "qfloat8_e4m3fn", "qfloat8_e5m2", "qint4", "qint2"}
-Fams == {"onehot", "alt", "ramp", "sat", "big8", "bigf"}
+Fams == {"onehot", "alt", "ramp", "sat", "big8", "bigf", "bigm"}
 
 VARIABLES cfg, route, pc
 vars == <<cfg, route, pc>>
@@ -62,6 +62,7 @@ A(fam, i, k, K) ==
     [] fam = "sat"    -> IF (i + k) % 2 = 0 THEN 127 ELSE -128
     [] fam = "big8"   -> IF (i + k) % 2 = 0 THEN 384 ELSE -320          \* large float8 codes (both formats hold them exactly)
     [] fam = "bigf"   -> 128                                              \* float activations of realistic magnitude (16.0)
+    [] fam = "bigm"   -> IF (i + k) % 4 = 3 THEN -128 ELSE 127           \* saturating int8 activation codes (mostly one sign)
 W8(fam, j, k) ==
   CASE fam = "onehot" -> ((j + 2 * k) % 5) - 2
     [] fam = "alt"    -> (j % 3) - 1
@@ -69,6 +70,7 @@ W8(fam, j, k) ==
     [] fam = "sat"    -> IF (j + k) % 3 = 0 THEN -128 ELSE 127
     [] fam = "big8"   -> IF (j + k) % 3 = 0 THEN -384 ELSE 256
     [] fam = "bigf"   -> 127 - (j % 3)                                    \* codes at the top of the int8 range
+    [] fam = "bigm"   -> IF (j + k) % 5 = 0 THEN -256 ELSE 384            \* large float8 weight codes
 \* packed low-bit weights: every row holds its extreme codes (so the range is exactly 2^bits - 1
 \* steps and the scale the optimizer picks is the power of two EW) and values inside the range
 LoOf(q) == IF q = "qint4" THEN -7 ELSE -1
@@ -132,6 +134,7 @@ FamOf(d, a, w, sz) ==      \* one operand family per configuration, rotating
   IF a = "qint8" /\ w = "qint8" /\ (sz[2] + sz[3]) % 2 = 0 THEN "sat"
   ELSE IF IsF8(a) /\ IsF8(w) /\ (sz[1] + sz[3]) % 2 = 1 THEN "big8"
   ELSE IF a = "float" /\ w = "qint8" /\ sz[2] >= 32 THEN "bigf"
+  ELSE IF a = "qint8" /\ IsF8(w) /\ (sz[1] + sz[2]) % 2 = 0 THEN "bigm"
   ELSE <<"onehot", "alt", "ramp">>[((sz[1] + sz[2] + sz[3] + (IF d = "float16" THEN 1 ELSE 0) + (IF a = "float" THEN 1 ELSE 0)) % 3) + 1]
 Init ==
   /\ \E d \in Dtypes, a \in Acts, w \in WQs, wa \in {"per-axis", "per-tensor"}, sz \in Sizes, b \in BOOLEAN :
